@@ -15,18 +15,28 @@ CLAIMS = {
  "C01": dict(
    text="Statement: decode (assemble (render d)) = d for every instance d of the family, where decode is the Lean reference decoder AL.Spec.X86 "
         "(written from the architecture's encoding rules, cross-validated against objdump on every run), render writes d in AssemblyLine's syntax and "
-        "the family (AL.Spec.X86Families.famC01) lists every integer entry of the reference opcode table over ALL register tuples x86-64 can encode "
-        "(8/16/32/64 bit, r8-r15, ah/ch/dh/bh without REX), every synonym mnemonic and the no-operand instructions. Theorems: Sweep.c01_sweep (the "
-        "whole family, about 51000 instances x option bytes {14,0}, on the model, decided by evaluation - native_decide), C01.nop_table_decodes "
-        "(kernel-checked: every entry n of the regenerated NOP table is one nop of n bytes), C01.no_operand_lines (kernel evaluation of the text-level "
-        "pipeline), C01.letter_case_irrelevant (kernel-checked, EVERY line and option byte: the case of its letters does not change the result), C01.regpair_fields (kernel-checked by evaluation in the kernel, no native_decide: for all four widths and EVERY encodable pair of general registers the REX prefix and ModRM byte that get_rex_prefix / get_reg compute name exactly those registers at that width). Tie: "
-        "the same family on the C implementation under option bytes {14,0} (thorough: all 12): implementation bytes = model bytes "
-        "(T2) and decode(bytes) = written instruction, length = offset advance; upper/mixed-case spellings give the same bytes; each line assembled "
-        "a second time after NOP padding (chunk fitting re-assembles the record) gives the same instruction.",
-   note="The finite register-tuple quantifier is discharged by evaluation, not by a kernel-checked term: c01_sweep depends on the per-theorem "
-        "native_decide axiom (Lean compiler/interpreter trusted) - kernel evaluation of the text-level model was measured at about 55 ms per line. "
-        "Equivalences accepted as 'the same operation': xchg is symmetric; xchg ax,ax / rax,rax may be the nop they are (not xchg eax,eax).",
-   technique="Lean 4 reference decoder + abstract syntax; exhaustive finite-domain theorem (native_decide) and kernel-checked table lemmas; exhaustive differential run of the family on the C code with decoding oracle",
+        "the family lists every integer entry of the reference opcode table over ALL register tuples x86-64 can encode "
+        "(8/16/32/64 bit, r8-r15, ah/ch/dh/bh without REX), every synonym mnemonic and the no-operand instructions. "
+        "DECIDING THEOREM, KERNEL-CHECKED (no native_decide): AL.Properties.C01.every_register_form = AL.Properties.Kernel.c01_every_instance - for every "
+        "register-operand entry of the reference table, every spelling of its mnemonic, every operand size, EVERY encodable register tuple (51 022 "
+        "written lines) and EVERY option byte (all twelve combinations and any other value) the model of the whole per-line pipeline (line filter, "
+        "tokenizer, table lookups, encoder, byte emission) yields bytes the reference decoder reads back as exactly one instruction, the written one, "
+        "covering all bytes - or rejects a form outside the frozen supported list. The instances are cut into 1 860 cells of at most 192 lines, each "
+        "decided by its own `decide +kernel` (267 modules, about 65 ms of kernel evaluation per line) at option byte 14; Kernel.checkK_sound carries "
+        "every instance to all option bytes through the non-interference theorem C11.other_lines_identical. Axioms: propext, Classical.choice, "
+        "Quot.sound. Further theorems: Sweep.c01_sweep (the same family through the String renderer at option bytes {14,0}, by native_decide - kept "
+        "as a cross-check of the renderer), C01.nop_table_decodes (kernel-checked: every entry n of the regenerated NOP table is one nop of n bytes), "
+        "C01.no_operand_lines, C01.letter_case_irrelevant (kernel-checked, EVERY line and option byte: the case of its letters does not change the "
+        "result), C01.regpair_fields (kernel evaluation: for all four widths and EVERY encodable pair of general registers the REX prefix and ModRM "
+        "byte that get_rex_prefix / get_reg compute name exactly those registers at that width). Tie: the same family on the C implementation under "
+        "option bytes {14,0} (thorough: all 12): implementation bytes = model bytes (T2) and decode(bytes) = written instruction, length = offset "
+        "advance; the compiled driver confirms (op KF) that the list-level family of the kernel theorem is, text by text, the family run on the C "
+        "code; upper/mixed-case spellings give the same bytes; each line assembled a second time after NOP padding (chunk fitting re-assembles the "
+        "record) gives the same instruction and offset; programs of 40 family lines in ONE call give the concatenation of the lines' own code.",
+   note="The kernel theorem is re-checked whenever the regenerated tables change (about 7 minutes on 16 cores, 75 CPU-minutes). It is over the MODEL; "
+        "the tie to the C code is the exhaustive differential run of the same 51 022 lines. Equivalences accepted as 'the same operation': xchg is "
+        "symmetric; xchg ax,ax / rax,rax may be the nop they are (not xchg eax,eax).",
+   technique="Lean 4 reference decoder + abstract syntax; kernel-checked exhaustive theorem over the whole finite family (decide +kernel in 1 860 cells) lifted to all option bytes by a proved non-interference theorem; exhaustive differential run of the family on the C code with decoding oracle",
    design="8/C01"),
  "C02": dict(
    text="Statement: decode (assemble (render d)) = d up to an encoding of the SAME address (AL.Spec.X86.sameMem: same access width, address size, "
